@@ -202,8 +202,8 @@ mod verif_codecs {
         let expect = if q == lo { Some(0u16) } else if q == hi { Some(1u16) } else { None };
         assert!(r.get(GlyphId16::new(q)) == expect);
         kani::cover!(a == b);
-        kani::cover!(b == a + 1);
-        kani::cover!(a > b + 1 && q == a);
+        kani::cover!(b as u32 == a as u32 + 1);
+        kani::cover!(a as u32 > b as u32 + 1 && q == a);
     }
 
     // NOTE: harnesses comparing PackedPointNumbers::compute_size with the number of bytes written at the 127/128/129
